@@ -9,18 +9,20 @@ evaluator model).  The zone table is the one chrono-tz uses (extracted by the ha
 the instants of the line).  Absolute instants are UTC readings `day:ns`.
 
 Verdicts (first that applies):
-  `fail <clause> [class=…] model=…`  a C09 clause is false on the IMPLEMENTATION's output:
+  `fail <clause> [class=…] model=…`  a clause is false on the IMPLEMENTATION's output:
      naive-time    chrono's wall-clock time of the input ≠ `naive` of the table
      eq-naive      result ≠ the implementation's own NoLocation evaluation at the wall-clock time
                    (state / next / iter: kinds, comments, count)
      local-time    a returned instant does not read the naive result although that local time exists
      later         … exists twice and the earlier instant was returned
      first-valid   the naive result does not exist and the returned instant is not the first valid
-                   instant after it (class unaligned-gap: it is the minute step after a gap that does
-                   not end on a whole minute; class zone-not-ok: the table fails `zoneOK`, e.g. a
-                   gap directly followed by a fold)
-     backwards     interval bounds go backwards in absolute time
-     nonempty      an interval is empty although the naive interval is not (D16)
+                   instant after it; classes (decidable on (table, naive instant), `OH/Model/Tz.lean`):
+                   `unaligned-gap` = `unalignedGap z n`, `zone-not-ok` = `gapLandsInFold z n`
+     backwards     interval bounds go backwards in absolute time; class `unaligned-gap-backwards` =
+                   `backwardsInGap z a b` for the naive bounds `a ≤ b` concerned
+     c02-nonempty  an interval is EMPTY although the naive interval is not.  Not a C09 violation (bounds
+                   do not go backwards): C02's "intervals are non-empty" in a zone context;
+                   class `D16-empty-interval-in-gap` = `localSpanInGap z a b`
   `disagree model=…`                 clauses hold but model ≠ implementation
   `ok <tag>`
 -/
@@ -73,12 +75,12 @@ def checkMapped (z : Zone) (n u : Int) : Option String :=
     match gapOf z n with
     | some (T, _, b) =>
       if u = T then none
-      else if u = T + (n - b) % nsPerMin then
-        -- the minute step after the gap (`datetime_gap`).  A naive result is a whole minute: then
-        -- this is not the first valid instant because the gap does not end on a whole minute.
-        -- Sub-minute `n` only comes from direct `tz.datetime` ops and is not a naive result.
-        if n % nsPerMin = 0 then some "first-valid class=unaligned-gap" else none
-      else if zoneOK z then some "first-valid" else some "first-valid class=zone-not-ok"
+      -- a sub-second phase of `n` only comes from direct `tz.datetime` ops and is not a naive result:
+      -- there the proven value of `datetime_gap` (first valid instant + phase) is what is checked
+      else if n % nsPerSec ≠ 0 ∧ ¬ gapLandsInFold z n ∧ u = T + (n - b) % nsPerSec then none
+      else if gapLandsInFold z n then some "first-valid class=zone-not-ok"
+      else if unalignedGap z n then some "first-valid class=unaligned-gap"
+      else some "first-valid"
     | none => some "first-valid class=zone-not-ok"
   | l =>
     if naive z u ≠ n then some "local-time"
@@ -125,19 +127,21 @@ def checkIntervals (z : Zone) (nl out : List Interval) : Option String :=
       [x, y].map (fun r => match r with
         | some c => if c.startsWith "first-valid" then none else some c
         | none => none)))
+    let cls (a b : Int) : String :=
+      if backwardsInGap z a b then "backwards class=unaligned-gap-backwards" else "backwards"
     let rec back : List (Interval × Interval) → Option String
       | (a, b) :: (a', b') :: rest =>
-        if (a.start ≤ a.stop ∧ b.start > b.stop) ∨ (a.stop ≤ a'.start ∧ b.stop > b'.start) then some "backwards"
+        if a.start ≤ a.stop ∧ b.start > b.stop then some (cls a.start a.stop)
+        else if a.stop ≤ a'.start ∧ b.stop > b'.start then some (cls a.stop a'.start)
         else back ((a', b') :: rest)
-      | [(a, b)] => if a.start ≤ a.stop ∧ b.start > b.stop then some "backwards" else none
+      | [(a, b)] => if a.start ≤ a.stop ∧ b.start > b.stop then some (cls a.start a.stop) else none
       | [] => none
-    let backwards := (back pairs).map (fun c =>
-      if gapsAligned z then c else c ++ " class=unaligned-gap-backwards")
+    let backwards := back pairs
     let firstValid := firstSome (mapped.flatMap (fun (x, y) => [x, y]))
     let empty := firstSome (pairs.map (fun (a, b) =>
       if b.start = b.stop ∧ a.start < a.stop then
-        (if localSpanInGap z a.start a.stop then some "nonempty class=D16-empty-interval-in-gap"
-         else some "nonempty")
+        (if localSpanInGap z a.start a.stop then some "c02-nonempty class=D16-empty-interval-in-gap"
+         else some "c02-nonempty")
       else none))
     firstSome [hard, backwards, firstValid, empty]
 
@@ -209,11 +213,10 @@ def handle (op : String) (args impl : List String) : Option String :=
               let tag := "state" ++ (if inTr then "-tr" else "")
               match nres with
               | [n0, nk] =>
-                let mnv := runM (match stateNL (envOf ctx e) (naive z t) with | .ok k => .ok [kindTok k] | .error p => .error p)
+                let mnv := runM (match stateG (envOf ctx e) (naive z t) with | .ok k => .ok [kindTok k] | .error p => .error p)
                 let clause :=
                   if parseInstant n0 ≠ some (naive z t) then some "naive-time"
                   else if sameOut [nk] r then none
-                  else if naive z (t + nsPerMin) ≤ naive z t then some "eq-naive class=state-window-fold"
                   else some "eq-naive"
                 some (finish z tag clause m r (sameOut mnv [nk]))
               | _ => some (finish z tag none m r)
